@@ -609,6 +609,7 @@ theorem prefixPhase_g (b : Bytes) :
          else .ok (false, b))
       else .ok (false, b) := by
   unfold prefixPhase
+  simp only [prefixRepair, Bool.false_eq_true, if_false]
   by_cases hfmt : (c.feats.format && c.basePrefix ≠ 0) = true
   · rw [if_pos hfmt, if_pos hfmt]
     simp only [readIfValueCased_g hc hb .integer (by decide), bind, Except.bind]
